@@ -1,6 +1,11 @@
 from runner import Property, Engine
 import serversgen
 import chan09gen
+import os
+import vlib
+
+SIM_DIR = os.path.join(vlib.CACHE, "simfiles")
+os.makedirs(SIM_DIR, exist_ok=True)
 
 PROP = Property(
     pid="C09",
@@ -12,7 +17,7 @@ PROP = Property(
                     n_quick=4000, n_thorough=100000),
              Engine(name="chan09", c_srcs=["harness/sim.c", "harness/chan_drv.c"],
                     ml_srcs=["ocaml/gen/ServersModel.ml", "ocaml/chan09_drv.ml"],
-                    gen=chan09gen.gen, n_quick=5000, n_thorough=100000,
+                    gen=chan09gen.gen, n_quick=5000, n_thorough=100000, env={"VERIF_SIM_DIR": SIM_DIR},
                     wraps=["ares_tvnow", "ares_rand_bytes", "ares_generate_new_id",
                            "ares_htable_hash_FNV1a", "ares_htable_hash_FNV1a_casecmp"])],
     trusted_base=["Coq 8.16.1 kernel + coqc (vm_compute; no native_compute)",
